@@ -306,10 +306,23 @@ pub fn read(ctx: &Ctx, op: &Op) -> (String, i64, Value) {
                     Cont::Sel(s) => if byte { s.utf8byte(p) } else { s.utf8byte_to_charpos(p) }.ok(),
                     Cont::None => None,
                 };
-                match res {
-                    Some(v) => (0, json!({"ok": true, "v": v})),
-                    None => (0, json!({"ok": false, "v": 0})),
-                }
+                // the same question through the other form of a bound text selection (ResultItem<TextSelection>)
+                let ires = match container(store, &a["c"], style) {
+                    Cont::Sel(s) => match s.as_resultitem() {
+                        Some(item) => if byte { item.utf8byte(p) } else { item.utf8byte_to_charpos(p) }.ok(),
+                        None => res,
+                    },
+                    _ => res,
+                };
+                let (ok, v) = match res {
+                    Some(v) => (true, v),
+                    None => (false, 0),
+                };
+                let (iok, iv) = match ires {
+                    Some(v) => (true, v),
+                    None => (false, 0),
+                };
+                (0, json!({"ok": ok, "v": v, "iok": iok, "iv": iv}))
             }
             "TextOp" => {
                 let needle_codes: Vec<i64> = serde_json::from_value(a["needle"].clone()).unwrap_or_default();
